@@ -10,7 +10,7 @@
    between the outputs of different handlers is not an observable (the default table
    never produces more than one).  The registration side (parseCMD, Set, SetBg, Clear,
    ClearAll) is at the end.  No proofs here. *)
-Require Import Bytes Names GoUpper.
+Require Import Bytes Names GoUpperAscii.
 
 (* ---- events ---------------------------------------------------------- *)
 
